@@ -107,6 +107,12 @@ Proof.
     change (fold_right Nat.add 0 (map w r)) with (list_sum (map w r)). lia.
 Qed.
 
+Lemma after_plain_w l : input_w (after_plain l) <= input_w l.
+Proof.
+  induction l as [|it r IH]; [apply le_n|].
+  destruct it; cbn [after_plain]; rewrite ?input_w_cons; try apply le_n. lia.
+Qed.
+
 Ltac wnorm :=
   repeat rewrite hs_w_app; repeat rewrite hs_w_cons; rewrite ?hs_w_nil;
   repeat rewrite input_w_app; repeat rewrite input_w_cons; rewrite ?input_w_nil;
@@ -151,7 +157,8 @@ Proof.
         -- inversion H; subst. left. split; reflexivity.
       * inversion H; subst. eapply Hfin; [discriminate|reflexivity|]. cbn [pc input hs]. wnorm. lia.
       * inversion H; subst. eapply Hfin; [discriminate|reflexivity|]. cbn [pc input hs].
-        destruct (input c) as [|[| |] r0]; wnorm; lia.
+        pose proof (after_plain_w (input c)) as Hap.
+        destruct (after_plain (input c)) as [|[| |] r0]; repeat rewrite input_w_cons in Hap; cbn [item_w] in Hap; wnorm; lia.
   - destruct todo as [|t rest].
     + inversion H; subst. eapply Hfin; [discriminate|reflexivity|]. cbn [pc input hs set_pc]. wnorm. lia.
     + destruct t; [|destruct (inflight c =? 0); [|discriminate]| |destruct (negb (has_onclose cfg)); [|destruct (onclose_held s); [discriminate|]]|];
